@@ -50,7 +50,6 @@ func WithDebug(f func(format string, arg ...any)) Option {
 // The ctx is used while reading the initial ClientHello only. It is not used
 // after New returns.
 func NewConn(ctx context.Context, conn net.Conn, options ...Option) (outConn *Conn, err error) {
-	defer func() { convertErrorsToAlerts(conn, err) }()
 	// The watcher interrupts the read of the first ClientHello when ctx ends.
 	// It is stopped, and waited for, before NewConn returns so that ctx has no
 	// effect on conn afterwards.
@@ -67,11 +66,15 @@ func NewConn(ctx context.Context, conn net.Conn, options ...Option) (outConn *Co
 		}
 	}()
 	defer func() {
+		// The alert is written while the watcher is still active: ctx also
+		// bounds this write when the client does not read.
+		convertErrorsToAlerts(conn, err)
 		close(done)
 		<-exited
 		if fired && err == nil {
 			// The deadline was set after the ClientHello was read.
 			outConn, err = nil, context.Cause(ctx)
+			convertErrorsToAlerts(conn, err)
 		}
 	}()
 	record, err := readRecord(conn)
